@@ -180,6 +180,184 @@ func (c *Ctx) lexRun() map[string]*simpleVerdict {
 				seqs = append(seqs, seq{a.text + " #c\n" + a.text, []lexItem{a, {" ", "Whitespace", " "}, {"#c", "Comment", "c"}, {"\n", "Whitespace", " "}, a}})
 			}
 		}
+		// the default instance, then instances configured through the exported API
+		type lexCfg struct {
+			desc  string
+			apply func(h *tkHarness) string
+			seqs  []seq
+		}
+		cfgs := []lexCfg{{"", nil, seqs}}
+		word := func(t string) lexItem { return lexItem{t, "Word", "w"} }
+		sym := func(t string) lexItem { return lexItem{t, "Symbol", "s"} }
+		blank := func(t string) lexItem { return lexItem{t, "Whitespace", " "} }
+		mk := func(items ...lexItem) seq {
+			var sb strings.Builder
+			for _, it := range items {
+				sb.WriteString(it.text)
+			}
+			return seq{sb.String(), items}
+		}
+		// further symbols registered with SymbolState().Add whose first character is routed to another state
+		// than the symbol state (sign, dot, slash) or is a symbol character: the longest registered symbol wins
+		// between identifiers, numbers, literals and brackets, with and without blanks
+		for _, set := range [][]string{{"->"}, {"-="}, {"--"}, {"->", "-->"}, {"+="}, {"++"}, {"+-"}, {".."}, {"...", ".."}, {".="}, {"/="}, {"/>"}, {"/%", "/%/"}, {"=>", "=>>"}, {"-+", "+-", "./", "/."}} {
+			set := set
+			var ss []seq
+			for _, t := range set {
+				s := sym(t)
+				lit, num := lexItem{"'q'", "Quoted", "q"}, lexItem{"12", "Integer", "n"}
+				ss = append(ss, mk(s), mk(s, word("b")), mk(s, blank(" "), word("b")), mk(word("a"), blank(" "), s, blank(" "), word("b")), mk(word("a"), blank(" "), s),
+					mk(sym("("), word("x"), sym(")"), s, word("y")), mk(sym("("), s, sym(")")), mk(num, blank(" "), s, blank(" "), num), mk(lit, s, lit), mk(s, blank("\n"), s), mk(sym("("), s, word("e1")),
+					mk(num, blank(" "), s, blank(" "), sym("("), word("x"), sym(")")), mk(word("a"), blank("\t"), s, lit))
+				if kind == "expression" {
+					// (generically a sign or a dot after an identifier may continue the word)
+					ss = append(ss, mk(word("a"), s, word("b")), mk(word("a"), s), mk(word("x1"), s, word("e5x"), s, word("y")), mk(word("a"), s, blank(" "), num))
+				}
+			}
+			cfgs = append(cfgs, lexCfg{fmt.Sprintf("SymbolState().Add of %q", set), func(h *tkHarness) string { return h.addSymbols(set...) }, ss})
+		}
+		// a block of characters above U+00FF handed to another state than the one the broad default range names
+		// (identifier letters of one script for the expression tokenizer, mathematical operators as symbols for the
+		// generic one): a character of the block before, between and after characters of the rest of the range
+		{
+			type block struct {
+				from, to rune
+				ids      []string
+			}
+			blocks := []block{{0x0400, 0x04ff, []string{"цена", "ж", "скидка1", "Ёж_2"}}, {0x0370, 0x03ff, []string{"αβγ", "Ω", "λ1"}}, {0x4e00, 0x9fff, []string{"価格", "数"}}}
+			outside := []string{"≥", "√", "→", "、", "€"}
+			for bi, b := range blocks {
+				b := b
+				var ss []seq
+				var others []lexItem
+				state := "WordState"
+				if kind == "expression" {
+					for _, o := range outside {
+						others = append(others, sym(o))
+					}
+				} else {
+					// generically the broad range belongs to identifiers: the block is handed to the symbol state instead
+					state = "SymbolState"
+					b = block{0x2190, 0x22ff, []string{"≥", "√", "→", "∞"}}
+					if bi > 0 {
+						break
+					}
+					for _, o := range []string{"цена", "ж", "αβγ", "価格"} {
+						others = append(others, word(o))
+					}
+				}
+				for i, id := range b.ids {
+					in := word(id)
+					if kind == "generic" {
+						in = sym(id)
+					}
+					for j, o := range others {
+						sep := blank(seps[(i+j)%len(seps)])
+						in2 := in
+						in2.text = b.ids[(i+1)%len(b.ids)]
+						ss = append(ss, mk(in), mk(o, in), mk(in, o), mk(o, sep, in), mk(in, sep, o), mk(in, sep, o, sep, in2), mk(o, sep, in, sep, o), mk(in, o, in2), mk(o, in, o, in2),
+							mk(word("abc"), sep, o, sep, in, sep, word("x9")), mk(o, sep, o, sep, in, sep, in2), mk(in, sep, in2, sep, o, sep, o))
+						if kind == "expression" {
+							ss = append(ss, mk(o, o, in), mk(in, sym("<="), in2, sym("*"), o, in), mk(sym("("), in, sym(")"), o, in2))
+						}
+					}
+				}
+				// (an identifier may go on with any character above U+00FF: such neighbours can merge and are left out)
+				kept := ss[:0]
+				for _, q := range ss {
+					merges := false
+					for j := 0; j+1 < len(q.want); j++ {
+						merges = merges || (q.want[j].kind == "w" && q.want[j+1].kind != " " && []rune(q.want[j+1].text)[0] > 0xff)
+					}
+					if !merges {
+						kept = append(kept, q)
+					}
+				}
+				ss = kept
+				desc := fmt.Sprintf("SetCharacterState(%#x, %#x, %s())", b.from, b.to, state)
+				if state == "WordState" {
+					desc += fmt.Sprintf(" and WordState().SetWordChars(%#x, %#x, true)", b.from, b.to)
+				}
+				cfgs = append(cfgs, lexCfg{desc, func(h *tkHarness) string {
+					if state == "WordState" {
+						if why := h.stateCall(state, "SetWordChars", int64(b.from), int64(b.to), true); why != "" {
+							return why
+						}
+					}
+					return h.setCharState(b.from, b.to, state)
+				}, ss})
+			}
+		}
+		for ci := 1; ci < len(cfgs); ci++ {
+			cfg := cfgs[ci]
+			wg.Add(1)
+			go func() {
+				defer wg.Done()
+				v := &simpleVerdict{}
+				defer func() {
+					mu.Lock()
+					t := res[kind]
+					if t == nil {
+						t = &simpleVerdict{}
+						res[kind] = t
+					}
+					t.runs += v.runs
+					if v.bad != "" && (t.bad == "" || len(v.bad) < len(t.bad)) {
+						t.bad = v.bad
+					}
+					if v.undec != "" && t.undec == "" {
+						t.undec = v.undec
+					}
+					mu.Unlock()
+				}()
+				h := c.newTkHarness(kind)
+				if h.fault != "" {
+					v.undec = h.fault
+					return
+				}
+				if why := h.setOptions(0); why != "" {
+					v.undec = why
+					return
+				}
+				if why := cfg.apply(h); why != "" {
+					if strings.Contains(why, " panic ") {
+						v.bad = fmt.Sprintf("%s tokenizer: %s - a valid configuration is refused", kind, why)
+					} else {
+						v.undec = kind + " tokenizer: " + why
+					}
+					return
+				}
+				for i, s := range cfg.seqs {
+					v.runs++
+					r := h.tokenize(s.text)
+					show := fmt.Sprintf("%s tokenizer configured by %s, on %q", kind, cfg.desc, s.text)
+					if i%37 == 0 {
+						noteSample("TOK.lexemes/"+kind+"-configured", fmt.Sprintf("%s: %q", cfg.desc, s.text))
+					}
+					if r.kind == "panic" {
+						v.bad = show + " panics: " + r.why
+						continue
+					}
+					if r.kind != "ok" {
+						v.undec = show + ": " + r.why
+						continue
+					}
+					var ws []string
+					for _, l := range s.want {
+						ws = append(ws, fmt.Sprintf("%s(%q)", l.class, l.text))
+					}
+					ok := len(r.toks) == len(s.want)+1
+					for j := 0; ok && j < len(s.want); j++ {
+						if r.toks[j].val != s.want[j].text || !classOK(s.want[j].class, r.toks[j].typ) {
+							ok = false
+						}
+					}
+					if !ok && v.bad == "" {
+						v.bad = fmt.Sprintf("%s gives [%s]; the lexemes written are [%s]", show, renderToks(r.toks), strings.Join(ws, " "))
+					}
+				}
+			}()
+		}
 		nw := 6
 		for w := 0; w < nw; w++ {
 			wg.Add(1)
